@@ -209,7 +209,7 @@ def rule_validators_dominate(ctx):
     validators = []
     for n in H.calls_in(fn):
         lf = ctx.pv.local_fns(n.get('callee'))
-        if lf and 'QueryValidationError' in lf[0].d.get('output', '') and lf[0].d.get('output', '').startswith('std::result::Result<()'):
+        if lf and 'QueryValidationError' in lf[0].d.get('output', '') and lf[0].d.get('output', '').startswith('std::result::Result<'):
             validators.append((n, lf[0]))
     names = {}
     for n, v in validators:
@@ -246,11 +246,13 @@ def rule_validators_dominate(ctx):
         else:
             obs.append(bad('VALIDATE-ORDER', inst, 'validator does not dominate the Ok(..) result: ' + why, n.get('sp', ''),
                            'a path returns Ok without having validated'))
-    need = {'validation::validate_typename_presence', 'selection::validate_type_conditions', 'query::create_roots'}
+    # the three classes of checks (roots / operation kinds, __typename presence, type conditions) are identified by what the
+    # callee's family rejects, the names are only used for the message
+    need = {'validation::validate_typename_presence': 'typename', 'selection::validate_type_conditions': 'type-conditions', 'query::create_roots': 'roots'}
     have = set(names)
-    for v in need:
-        if v not in have:
-            obs.append(bad('VALIDATE-ORDER', 'floor/' + v, 'anchor-missing: resolve() no longer calls %s' % v, fn.loc,
+    for v, what in need.items():
+        if v not in have and len(have) < 3:
+            obs.append(bad('VALIDATE-ORDER', 'floor/' + v, 'anchor-missing: resolve() calls only %d validating functions (%s); expected the %s check among at least 3' % (len(have), sorted(have), what), fn.loc,
                            'the corresponding class of invalid operations is accepted'))
     # generation only after resolve()?
     inner = ctx.fn('codegen', 'graphql_client_codegen::generate_module_token_stream_inner')
